@@ -7,6 +7,7 @@ mod inventory;
 mod datatype;
 mod hashiter;
 mod iterinj;
+mod reorg;
 
 #[macro_export]
 macro_rules! shape_changed {
@@ -43,6 +44,7 @@ fn main() {
         "GenDataTypeConv" => datatype::generate(&a[2], &a[3]),
         "GenHashIter" => hashiter::generate(&a[2], &a[3]),
         "GenIterInj" => iterinj::generate(&a[2], &a[3]),
+        "GenReorg" => reorg::generate(&a[2], &a[3]),
         other => { eprintln!("unknown generator {other}"); std::process::exit(2) }
     }
 }
